@@ -50,6 +50,7 @@ FIXED = [
  ("fix: an 'update' notification that modifies a row", "C18", "TestFixedC18UpdateOfUnknownRow", "TableCache.Populate (RFC 7047 'update' notifications) cloned a nil model when a notification modified a row the cache does not hold and panicked in the client's read loop (Populate2 has the guard): a Monitor call with the plain 'monitor' method given up by its context leaves a monitor registered at the server, and the next foreign update of that table killed the application; found by TestC14Partial's first run"),
  ("fix: data race on the endpoint list", "C18", "TestFixedC18EndpointListRace race=1", "handleDisconnectNotification read o.endpoints[0] for a log line after releasing rpcMutex while a Connect call of the application rewrites the list under the lock (moveEndpointFirst): data race reported by TestC18Concurrent on a busy machine in about one shard run in fifteen; pinned with the pause point disconnect:unlocked"),
  ("fix: commit, comment and assert", "C19", "TestFixedC19DegenerateOps", "commit/comment/assert operations carrying a table but not their member dereferenced nil"),
+ ("fix: a plain monitor was notified of a row whose monitored set column only changed", "C07", "TestFixedC07SetOrderOnly", "a transaction that deletes an element of a set and inserts it again (the elements end up in another order) and changes a column the monitor does not select made the server send a plain 'update' notification for a row in which nothing monitored had changed (rows compared with reflect.DeepEqual, sets as ordered lists); found by the thorough tier of C07 once mutate operations carried up to four mutations"),
 ]
 log = subprocess.run(["git","-C","/repo","log","--format=%h %s"],capture_output=True,text=True).stdout.splitlines()
 def sha(prefix):
